@@ -284,8 +284,10 @@ pub fn run(seed: u64, ntraces: usize) {
                 (op_json("approve", format!("{}/{}/{}/n={}", mlabel, slabel, p.label, nm), &caller, now, json!({"messages": hx(&raw), "proof": hx(&p.bytes)})), st)
             } else if choice < 12 {
                 // rotateSigners
-                let (nlabel, newset) = match if forced_rot.is_some() { 5 } else { r.below(6) } { 0 => gen_bad_set(&mut r), 1 if !g.sets.is_empty() => ("duplicate_of_registered", g.sets[r.below(g.sets.len() as u64) as usize].clone()), _ => ("fresh", gen_valid_set(&mut r)) };
-                let mut raw = newset.encode(0);
+                let (nlabel, newset) = match if forced_rot.is_some() { 5 } else { r.below(6) } { 0 => gen_bad_set(&mut r), 1 | 2 if !g.sets.is_empty() => ("duplicate_of_registered", g.sets[r.below(g.sets.len() as u64) as usize].clone()), _ => ("fresh", gen_valid_set(&mut r)) };
+                // the same logical set may arrive with non-canonical (zero-padded) weights / threshold: it is still the same set
+                let npad = if forced_rot.is_none() && (r.chance(1, 8) || (nlabel == "duplicate_of_registered" && r.chance(1, 2))) { 1 + r.below(2) as usize } else { 0 };
+                let mut raw = newset.encode(npad);
                 if forced_rot.is_none() && r.chance(1, 20) { raw.push(0); }
                 let (slabel, set) = if let Some((_, which, _)) = forced_rot { let e = g.sets.len(); if which == 1 && e >= 2 { ("previous", g.sets[e - 2].clone()) } else { ("latest", g.sets[e - 1].clone()) } } else { g.pick_set(&mut r) };
                 let variant = if forced_rot.is_some() { 1 } else if r.chance(2, 3) { r.below(2) } else { r.below(19) };
